@@ -49,9 +49,11 @@ def carrier_api():
                   dict(name='request_id', uuid4=True), dict(name='opt_request_id', uuid4=True, optional=True),
                   dict(name='req_id_required', uuid4=True, required=True), dict(name='plain_str')]
     dep = dict(name='other/dep/v1/dep.proto', package='other.dep.v1', target=False, imports=[],
+               enums=[dict(name='DepKind', values=['KIND_UNSPECIFIED', 'ALPHA', 'BETA'])],
                messages=[dict(name='Dep', fields=[dict(name='name'), dict(name='count', type='int32')]),
                          dict(name='DepReq', fields=[dict(name='name'), dict(name='count', type='int32'),
-                                                     dict(name='tags', repeated=True), dict(name='labels', type='map:string,string')])])
+                                                     dict(name='tags', repeated=True), dict(name='labels', type='map:string,string'),
+                                                     dict(name='kind', type='enum:.other.dep.v1.DepKind')])])
 
     def m(name, verb, out='Thing', sigs=(), cs=False, ss=False, inp='Req'):
         http = [] if cs else [dict(verb='post', uri=f'/v1/things:{verb}', body='*')]
@@ -68,7 +70,7 @@ def carrier_api():
         m('WatchThings', 'watch', sigs=['name'], ss=True),
         m('UploadThings', 'upload', cs=True),
         m('ChatThings', 'chat', cs=True, ss=True),
-        m('CheckDep', 'check', out='.other.dep.v1.Dep', sigs=['name,tags'], inp='.other.dep.v1.DepReq'),
+        m('CheckDep', 'check', out='.other.dep.v1.Dep', sigs=['name,tags,kind'], inp='.other.dep.v1.DepReq'),
     ]
     main = dict(name='acme/call/v1/things.proto', package=PKG,
                 enums=[dict(name='Kind', values=['KIND_UNSPECIFIED', 'ALPHA', 'BETA'])],
@@ -213,7 +215,7 @@ def trace_of(c, o):
     return dict(method=c['method'], transport=c['transport'], form=c['form'], args=c['args'], script=c['script'], events=o['events'])
 
 
-def check(chk, cases, label):
+def check(chk, cases, label, dep_enum=False):
     """run cases, compare, validate traces; records violations on chk."""
     pairs = run(chk, cases)
     traces = []
@@ -228,7 +230,7 @@ def check(chk, cases, label):
         if d:
             chk.violation('replay:' + k, '; '.join(d[:5]), dict(case=c, obs=o))
         traces.append((k, trace_of(c, o)))
-    accepted, rejected, runs = tlc.validate_all('CallTrace', 'CallTrace.cfg', [t for _, t in traces], timeout=1500)
+    accepted, rejected, runs = tlc.validate_all('CallTrace', _cfg('CallTrace.cfg', dep_enum), [t for _, t in traces], timeout=1500)
     for r in runs:
         chk.states += r.distinct; chk.transitions += r.generated
     chk.tlc_runs.append(dict(label=f'CallTrace batch ({label})', runs=len(runs), accepted=accepted, rejected=len(rejected)))
@@ -240,10 +242,15 @@ def check(chk, cases, label):
     return pairs
 
 
-def get_cases(chk, quick, seed, select=None, n_quick=2500):
-    r = tlc.run('Call', 'Call.small.cfg' if quick else 'Call.full.cfg', deadlock=False, timeout=1800)
+def _cfg(name, dep_enum):
+    t = open(os.path.join(tlc.SPEC, name)).read()
+    return t.replace('DepEnumOffered = FALSE', 'DepEnumOffered = TRUE') if dep_enum else t
+
+
+def get_cases(chk, quick, seed, select=None, n_quick=2500, dep_enum=False):
+    r = tlc.run('Call', _cfg('Call.small.cfg' if quick else 'Call.full.cfg', dep_enum), deadlock=False, timeout=1800)
     chk.add_tlc(r, 'Call model check')
-    cases, r2 = tlc.emit_cases('Call', 'Call.emit.small.cfg', deadlock=False, timeout=1800)
+    cases, r2 = tlc.emit_cases('Call', _cfg('Call.emit.small.cfg', dep_enum), deadlock=False, timeout=1800)
     chk.add_tlc(r2, 'Call case emission (small scope)')
     if select:
         cases = [c for c in cases if select(c)]
